@@ -228,9 +228,12 @@ def django_parser():
 # ---------------------------------------------------------------------------------------------
 # S side: structures, denotation, printing
 # ---------------------------------------------------------------------------------------------
-STR_CONTENTS = ["", "a", "hello world", "a=b", "[1, 2]", "{k: v}", "x|y:z", "*", "...", "%}", "a, b", " lead", "trail ", "été", "only", "/", "k:v"]
+STR_CONTENTS = ["", "a", "hello world", "a=b", "[1, 2]", "{k: v}", "x|y:z", "*", "...", "%}", "a, b", " lead", "trail ", "été", "only", "/", "k:v",
+                # white-space runs INSIDE a literal are significant: two blanks, tab, line break, padding
+                "two  spaces", "tab\there", "line\nbreak", "  padded  ", " \t mixed \n run ", "x   y  z"]
+WS_RUN_CONTENTS = ["two  spaces", "tab\there", "line\nbreak", "  padded  ", "x   y  z"]
 QUOTEY = ["it's", 'say "hi"', "back\\slash", "C:\\", "\\\\", "q\\\""]
-DYN_CONTENTS = ["{{ i }}", "{{ l }}", "{{ i }} {{ s }}", "x{{ s|upper }}", "{% lorem 2 w %}", "{# c #}z", "{{ d }}"]
+DYN_CONTENTS = ["{{ i }}", "{{ l }}", "{{ i }} {{ s }}", "x{{ s|upper }}", "{% lorem 2 w %}", "{# c #}z", "{{ d }}", "a {{ s }}  b", "  {{ i }}\t{{ i }}  "]
 KEYS = ["key", "k2", "data-id", "@click", "x.y", "#id", "v-on", "class", "_p", "hx-get", "@a.b-c_d", "for"]
 AGG = [("attrs", ["class", "@click.stop", "data-x", ":href", "a:b"]), ("js", ["on", "x-y"])]
 
@@ -270,7 +273,7 @@ def gen_leaf(rng, filters=True, key=False):
         c = rng.choice(STR_CONTENTS + QUOTEY)
         lf = {"k": "str", "c": c, "q": rng.choice("\"'")}
     elif r < 0.88:
-        lf = {"k": "trans", "c": rng.choice(["hi", "a b", "x|y"])}
+        lf = {"k": "trans", "c": rng.choice(["hi", "a b", "x|y", "two  blanks", " pad "])}
     else:
         lf = {"k": "dyn", "c": rng.choice(DYN_CONTENTS)}
     if filters and rng.random() < 0.3 and lf["k"] in ("var", "str", "num", "trans"):
@@ -342,6 +345,19 @@ def gen_arglist(rng, flags):
         kws.append({"k": "aspread", "v": {"k": "leaf", "leaf": {"k": "var", "t": rng.choice(["d", "d", "D", "mp", "ud", "cm", "od"])}}})
     elif rng.random() < 0.1:
         kws.append({"k": "aspread", "v": {"k": "dict", "ents": [{"k": "pair", "key": {"k": "str", "c": "lit", "q": '"'}, "v": gen_value(rng, 1)}]}})
+    if rng.random() < 0.2:
+        # a translation with a filter (positional or keyword: in a component tag the positional form makes Token.split_contents() give up and
+        # the tag_fn fall back to another splitter) NEXT TO literals whose inner white-space runs must survive the re-join of the bits
+        tr = {"k": "leaf", "leaf": {"k": "trans", "c": rng.choice(["hi", "a b"]), "f": [rng.choice([("upper", None), ("lower", None), ("cut", {"k": "str", "c": " ", "q": "'"})])]}}
+        if rng.random() < 0.7:
+            args.insert(rng.randint(0, len(args)), {"k": "pos", "v": tr})
+        else:
+            kws.append({"k": "kw", "key": "tr-k", "v": tr})
+        ws = {"k": "str", "c": rng.choice(WS_RUN_CONTENTS), "q": rng.choice("\"'")}
+        kws.append({"k": "kw", "key": "ws-k", "v": rng.choice([{"k": "leaf", "leaf": ws}, {"k": "list", "items": [{"k": "leaf", "leaf": ws}]},
+                                                             {"k": "leaf", "leaf": {"k": "dyn", "c": rng.choice(["a {{ s }}  b", "  {{ i }}\t{{ i }}  "])}}])})
+        if rng.random() < 0.5:
+            args.append({"k": "pos", "v": {"k": "leaf", "leaf": {"k": "str", "c": rng.choice(WS_RUN_CONTENTS), "q": rng.choice("\"'")}}})
     rng.shuffle(kws)
     fl = [f for f in flags if rng.random() < 0.2]
     items = args + kws
